@@ -22,9 +22,10 @@ func init() {
 			"Added after blind round 7: a connection's tracking entry is deleted only when its set is empty (or by the connection sweep itself). " +
 			"Added after blind round 8: the registry's ticker goroutine runs CleanupStaleTransactions on every tick. " +
 			"Added after blind round 9: the default registry's idle limit is below its lifetime limit, the constants followed through a delegating constructor. " +
-			"Added after blind round 10: the no-reentrancy obligations of the registry are listed here too (a lookup that calls the sweeper while holding the registry lock waits on itself).",
+			"Added after blind round 10: the no-reentrancy obligations of the registry are listed here too (a lookup that calls the sweeper while holding the registry lock waits on itself). " +
+			"Added after blind round 11: the service's CleanupConnection hands the registry the connection id it received, unchanged; in NewManagerWithTTL every time.Duration parameter is stored to the like-named field.",
 		NotDecided: "timing (when the sweeper runs, the 10 s / 30 s constants), liveness for all call sequences, the begin goroutine's error returns that never reach the caller (reported as info).",
-		Rules:      []func(*Ctx, *Reporter){ruleTxFinishOnce, ruleTxRelease, ruleTxLockWriters, ruleTxOrphanRemoval, ruleTxBeginHandoff, ruleTxStale, ruleLockReleasedOnEveryExit, ruleConnTrackingDroppedOnlyWhenEmpty, ruleSweeperSweepsEveryTick, ruleDefaultRegistryLimits, subRules(ruleReentrancyScope, "no-reentrancy")},
+		Rules:      []func(*Ctx, *Reporter){ruleTxFinishOnce, ruleTxRelease, ruleTxLockWriters, ruleTxOrphanRemoval, ruleTxBeginHandoff, ruleTxStale, ruleLockReleasedOnEveryExit, ruleConnTrackingDroppedOnlyWhenEmpty, ruleSweeperSweepsEveryTick, ruleDefaultRegistryLimits, subRules(ruleReentrancyScope, "no-reentrancy"), ruleCleanupForwardsConnectionID, ruleTTLParamsLandInLikeNamedFields},
 	})
 	register(&PropertyDef{
 		ID: "C04",
@@ -38,9 +39,10 @@ func init() {
 			"Added after blind round 6: the buffer-view rule of C03; the memtable's snapshot bound nextSeqNum is advanced by Put and Delete alike (cross-listed from C18: a delete-only commit must be visible to later scans). " +
 			"Added after blind round 7: every storage access of a transaction's Get/NewIterator/NewRangeIterator happens with TransactionImpl.mu held (Commit/Rollback wait for reads in flight); the scan iterator is built from every memtable and every SSTable it is given (whole-slice walks, no skipped iteration). " +
 			"Added after blind round 8: BufferIterator.Seek does not read the iterator's old position; the bounds decision table cross-listed from C05. " +
-			"Added after blind round 9: the transaction buffer's iterator, like every source below the merge, positions without looking at deletion markers (its tombstone is what hides the committed version).",
+			"Added after blind round 9: the transaction buffer's iterator, like every source below the merge, positions without looking at deletion markers (its tombstone is what hides the committed version). " +
+			"Added after blind round 11: the Value() copy obligations are listed here too (the buffer iterator's empty value must not become the nil that means 'deleted' to the merge).",
 		NotDecided: "equivalence of all interleavings to a serial order (needs histories); non-transactional writers are excluded by the property itself.",
-		Rules:      []func(*Ctx, *Reporter){ruleTxAcquire, ruleTxRelease, ruleTxLockWriters, ruleTxApplyInside, ruleTxOwnWrites, ruleTxFinishOnce, ruleTxOpsBuffered, ruleStStamps, ruleEmptyNotDeleted, subRules(ruleStEffectOnce, "retry-only-on-rotating"), ruleBufferViewsFollowMap, subRules(ruleMemVisibility, "next-seq-guard"), ruleTxReadsUnderTxLock, ruleScanSourcesComplete, ruleBufferSeekStateless, ruleBounds, ruleSourcesDoNotHideTombstones},
+		Rules:      []func(*Ctx, *Reporter){ruleTxAcquire, ruleTxRelease, ruleTxLockWriters, ruleTxApplyInside, ruleTxOwnWrites, ruleTxFinishOnce, ruleTxOpsBuffered, ruleStStamps, ruleEmptyNotDeleted, subRules(ruleStEffectOnce, "retry-only-on-rotating"), ruleBufferViewsFollowMap, subRules(ruleMemVisibility, "next-seq-guard"), ruleTxReadsUnderTxLock, ruleScanSourcesComplete, ruleBufferSeekStateless, ruleBounds, ruleSourcesDoNotHideTombstones, ruleValueWrappersKeepNil},
 	})
 }
 
